@@ -103,19 +103,29 @@ class RangeEvent(_Sym):
     doc = 'a range reference raises one callRangeValue event carrying the top-left and bottom-right cells however the corners ' \
           'were written, each cell\'s label agreeing with its coordinates'
     functions = ('Parser.call_range_value', 'helper.cell.extract_label', 'helper.cell.to_label', 'grammarparser.parser.p_cell')
-    bounds = 'both corner labels symbolic: 1..2 letters, 1..2 digits (no leading zero), all $ patterns on either corner; all ' \
-             'four corner orders (and shared rows / columns) arise from the symbolic coordinates'
+    bounds = 'both corner labels symbolic: 1..4 letters (thorough 1..6), 1 or 3 digits (thorough up to 7, no leading zero), all $ patterns on ' \
+             'either corner; all four corner orders (and shared rows / columns) arise from the symbolic coordinates; the same ' \
+             'rectangle referenced twice in one formula (as written and with swapped corners)'
 
     def cases(self, tier):
         out = []
-        for nl1 in (1, 2):
-            for nl2 in (1, 2):
-                for nd in ((1,) if tier == 'quick' else (1, 2)):
-                    for ca in (0, 1):
-                        for ra in (0, 1):
-                            out.append({'nl1': nl1, 'nl2': nl2, 'nd': nd, 'ca': ca, 'ra': ra, 'cb': 0, 'rb': 0})
-                    for cb, rb in ((1, 0), (0, 1), (1, 1)):
-                        out.append({'nl1': nl1, 'nl2': nl2, 'nd': nd, 'ca': 0, 'ra': 0, 'cb': cb, 'rb': rb})
+        widths = [(1, 1), (1, 2), (2, 1), (2, 2), (3, 3), (4, 4), (1, 4), (4, 2)]
+        if tier != 'quick':
+            widths += [(5, 5), (3, 5), (6, 1)]
+        for nl1, nl2 in widths:
+            for nd in ((1, 3) if tier == 'quick' else (1, 2, 3, 5, 7)):
+                if tier == 'quick' and nd == 3 and (nl1, nl2) in ((1, 2), (2, 1)):
+                    continue
+                for ca in (0, 1):
+                    for ra in (0, 1):
+                        out.append({'nl1': nl1, 'nl2': nl2, 'nd': nd, 'ca': ca, 'ra': ra, 'cb': 0, 'rb': 0})
+                for cb, rb in ((1, 0), (0, 1), (1, 1)):
+                    out.append({'nl1': nl1, 'nl2': nl2, 'nd': nd, 'ca': 0, 'ra': 0, 'cb': cb, 'rb': rb})
+        # the same rectangle referenced twice in one formula (as written, and with the corners swapped): two events
+        for nl in (1, 2):
+            for tw in ('same', 'swapped'):
+                out.append({'nl1': nl, 'nl2': nl, 'nd': 1, 'ca': 0, 'ra': 0, 'cb': 0, 'rb': 0, 'twice': tw})
+                out.append({'nl1': nl, 'nl2': nl, 'nd': 1, 'ca': 1, 'ra': 0, 'cb': 0, 'rb': 1, 'twice': tw})
         return out
 
     def build(self, e, p):
@@ -129,13 +139,27 @@ class RangeEvent(_Sym):
 
         def on_range(start, end, setter):
             events.append((start.label, start.row.index, start.col.index, end.label, end.row.index, end.col.index))
-            setter([[inp['v']]])
+            setter([[inp['v'] + 1000 * (len(events) - 1)]])     # every event is answered differently
         P.on('callRangeValue', on_range)
-        out = P.parse(inp['l1'] + ':' + inp['l2'])
+        if p.get('twice'):
+            second = (inp['l1'] + ':' + inp['l2']) if p['twice'] == 'same' else (inp['l2'] + ':' + inp['l1'])
+            out = P.parse('SUM(' + inp['l1'] + ':' + inp['l2'] + ')+SUM(' + second + ')')
+        else:
+            out = P.parse(inp['l1'] + ':' + inp['l2'])
         return {'out': out, 'events': events}
 
     def post(self, env, inp, out, p):
-        if isinstance(out, Raised) or len(out['events']) != 1:
+        if isinstance(out, Raised):
+            return False
+        if p.get('twice'):
+            # one event per reference, both describing the same rectangle, each reference evaluating to ITS event's value
+            if len(out['events']) != 2:
+                return False
+            e1, e2 = out['events']
+            o = out['out']
+            same = And(*[same_type_eq(x, y) for x, y in zip(e1[1:3] + e1[4:6], e2[1:3] + e2[4:6])])
+            return And(same, ok_result(o), isint(o['result']) and o['result'] == 2 * inp['v'] + 1000)
+        if len(out['events']) != 1:
             return False
         sl, sr, sc, el, er, ec = out['events'][0]
         r1, r2 = row_value(cps_of(inp['r1'])) - 1, row_value(cps_of(inp['r2'])) - 1
@@ -215,6 +239,14 @@ ORDER_CASES = [
     ('SUM({A1,B2},va)', ['cell:A1', 'cell:B2', 'var:va', 'fn:SUM']),
     ('G(G(A1))', ['cell:A1', 'fn:G', 'fn:G']),
     ('A1+A1', ['cell:A1', 'cell:A1']),
+    ('SUM(A1:B2)/COUNT(A1:B2)', ['range:A1:B2', 'fn:SUM', 'range:A1:B2', 'fn:COUNT']),
+    ('G(C3:C3)+G(C3:C3)', ['range:C3:C3', 'fn:G', 'range:C3:C3', 'fn:G']),
+    ('A1+B2*C3', ['cell:A1', 'cell:B2', 'cell:C3']),
+    ('IF(A1>0,A1,A1)', ['cell:A1', 'cell:A1', 'cell:A1', 'fn:IF']),
+    ('va+va*va', ['var:va', 'var:va', 'var:va']),
+    ('G(1)+G(1)', ['fn:G', 'fn:G']),
+    ('SUM(MAX(A1,B2),MIN(A1,B2))', ['cell:A1', 'cell:B2', 'fn:MAX', 'cell:A1', 'cell:B2', 'fn:MIN', 'fn:SUM']),
+    ('{A1,A1;B2,A1}', ['cell:A1', 'cell:A1', 'cell:B2', 'cell:A1']),
 ]
 
 
